@@ -20,7 +20,8 @@
  *   D <s> <L> <murmur3 digest> <spooky2 digest> <metro digest> <crc0> <crc1>
  *   R <c|z> <r> <nd> <b> <hex of np*b parity bytes>      c: Cauchy matrix np = 6;  z: power matrix (z-parity) np = 3
  *
- * Output protocol of `check` (stdout): FAIL <vector id> <text> / SAMPLE <json> / STAT <key> <int> / SKIP <what> / DONE.
+ * Output protocol of `check` (stdout): FAIL <vector id> <text> (first 40 per family) / FAMILY <family> <failures> /
+ * SAMPLE <json> / STAT <key> <int> / SKIP <what> / DONE.
  * Exit 0 = ran to completion; FAIL lines decide the verdict.
  */
 #define _GNU_SOURCE
@@ -42,6 +43,9 @@
 #define NPMAX 6
 #define NDMAX 251
 #define BMAX 256
+
+/* defined in snapraid.c (the only object not linked: it holds main) */
+volatile int global_interrupt;
 
 static const int ND_SET[] = { 1, 2, 3, 5, 8, 33, 64, 251 };
 static const int B_SET[] = { 64, 128, 192, 256 };
@@ -324,12 +328,29 @@ static int do_gen(const char *path)
 /* ---- check */
 static long n_fail, n_cmp, n_items, n_samples;
 
+/* failures are counted per family (first path component of the vector id, two for parity); the first 40 of
+ * each family are written out, the totals follow as FAMILY lines */
+#define NFAM 32
+#define FAIL_PRINT_MAX 40
+static struct { char name[48]; long n; } fam[NFAM];
+
 static void fail(const char *id, const char *fmt, ...)
 {
 	va_list ap;
+	char name[48];
+	const char *p = strchr(id, '/');
+	int k;
 
+	if (p && strncmp(id, "parity/", 7) == 0)
+		p = strchr(p + 1, '/');
+	snprintf(name, sizeof(name), "%.*s", p ? (int)(p - id) : (int)strlen(id), id);
+	for (k = 0; k < NFAM - 1 && fam[k].name[0] && strcmp(fam[k].name, name) != 0; ++k)
+		;
+	if (!fam[k].name[0])
+		strcpy(fam[k].name, name);
+	++fam[k].n;
 	++n_fail;
-	if (n_fail > 400)
+	if (fam[k].n > FAIL_PRINT_MAX)
 		return;
 	printf("FAIL %s ", id);
 	va_start(ap, fmt);
@@ -489,6 +510,8 @@ static int do_check(const char *path)
 	printf("STAT reference_items %ld\n", n_items);
 	printf("STAT comparisons %ld\n", n_cmp);
 	printf("STAT failures %ld\n", n_fail);
+	for (k = 0; k < NFAM && fam[k].name[0]; ++k)
+		printf("FAMILY %s %ld\n", fam[k].name, fam[k].n);
 	printf("STAT crc_x86 %d\n", x86);
 	printf("DONE\n");
 	return 0;
